@@ -291,6 +291,9 @@ class SDatetime:
     def utc(self):
         return self.wall - self.offset
 
+    def utcoffset(self):
+        return None if self.offset is None else STimedelta(self.offset)
+
     def replace(self, tzinfo=None):
         if tzinfo is _dt.timezone.utc:
             return SDatetime(self.wall, 0)
